@@ -131,7 +131,7 @@ theorem f64FromParts_nat (positive : Bool) (sig k : Nat) :
     FloatOrRange (ofF (f64FromParts positive sig (k : Int))) := by
   unfold f64FromParts
   have hk : (k : Int) ≥ 0 := Int.natCast_nonneg k
-  rw [show (k : Int).natAbs / 308 + 3 = (k / 308 + 2) + 1 by simp]
+  rw [show (k : Int).natAbs / Gen.fromPartsStep + 3 = (k / Gen.fromPartsStep + 2) + 1 by simp]
   rw [f64FromPartsLoop]
   simp only [hk, if_true]
   unfold FloatOrRange
